@@ -3,13 +3,17 @@
 META = dict(
     engine="E-PURE",
     technique="Lean 4 proof (induction over tree levels with the invariant 'every level is a contiguous partition of [0, top)'; bit-level proof of nextPowerOfTwo) + differential correspondence vs types.GenerateRoot/GenerateProofs/MerkleProof.Validate with the hash function as an uninterpreted table",
-    level_text="Kernel-checked theorems for leaf lists of every size 2..2^32 (hence every size >= 5), both parent-hash layouts, any hash function: if the leaf sums are positive, pairwise distinct and leave room for the padding below 2^64, the proof generated for every index verifies against the generated root with levels(n) levels, (true, replay=false); levels(n) equals the number of sibling entries produced by padding to nextPowerOfTwo. The Go code is tied to the model on every run: real relay-proof sets of sizes 5..1100 in all padding classes, pre- and post-upgrade heights, every index of small sets; levels vs the float expression exhaustively to 2^20 and at 2^k+-1.",
+    level_text="Kernel-checked theorems for leaf lists of every size 2..2^32 (hence every size >= 5), both parent-hash layouts, any hash function: if the leaf sums are positive, pairwise distinct and leave room for the padding below 2^64, the proof generated for every index verifies against the generated root with levels(n) levels, (true, replay=false); levels(n) equals the number of sibling entries produced by padding to nextPowerOfTwo. The Go code is tied to the model on every run: real relay-proof sets of sizes 5..1100 in all padding classes, pre- and post-upgrade heights, every index of small sets; the real keeper ValidateProof on claims whose session and proof block lie on either side of the hashing upgrade; levels vs the float expression exhaustively to 2^20 and at 2^k+-1.",
     level_note="Trusted: Lean kernel; the Go harness/driver parser; blake2b (a parameter of the theorems, a table in the driver); math.Log2 on float64 (compared, not modelled: it falls one short at 2^k+1 for k >= 49, far beyond any buildable tree). The hypothesis 'sums positive and pairwise distinct' is a property of the hash function; the harness reports that it held for every generated set. Sets larger than 2^32 are outside the theorems: nextPowerOfTwo only shifts up to 16 (counterexample theorem).",
 )
 
 RULE = ("c29 verify: sets of real RelayProof values of one session (fresh entropy/request hash), sizes 5..20, 2^k-1, 2^k, 2^k+1 and one mid-range size per k up to 1100 "
         "(thorough: every size 5..1100), each at one pre-upgrade and one post-upgrade height (sets above 70: one of the two, alternating) with the codec globals pinned; every index for n<=40, else 8 indices incl. 0,1,n-1, "
         "padding boundary; real GenerateRoot/GenerateProofs/Validate, level count from the keeper's float expression; non-trivial = the call did not panic; "
+        "keeper: real Keeper.ValidateProof on MemDB stores (one staked node/app, default params B=4, W=3): n in 5..17 (later rounds 5..32) relays of a session at S, "
+        "root by the real Evidence.GenerateMerkleRoot(S), required leaf by the real getPseudorandomIndex, proof by the real Evidence.GenerateMerkleProof(S), validated in block Hc=S+13..15 "
+        "with the hashing-upgrade height U (codec.UpgradeHeight) placed: above both, at Hc+1, at S, at 2, at S+1, at Hc, anywhere in (S,Hc], and with the mainnet constant 30024 for sessions "
+        "starting at 29993, 30009..30021 (in flight across it), 30025; non-trivial = ValidateProof accepted; "
         "levels: the float expression for every n<=2^20 (run-length encoded), 2^k-1,2^k,2^k+1 for k<=52, random n<=2^48")
 
 
@@ -23,11 +27,14 @@ def run(ctx):
         ctx.stream("verify-all", "c29", "Driver/C29.lean", n=1, args=["-mode", "verify", "-allsizes", "-max", "1100"], timeout=3000, drv_timeout=6000)
         ctx.stream("verify", "c29", "Driver/C29.lean", n=6000, args=["-mode", "verify", "-max", "1100"], seed=ctx.seed + 101, timeout=3000, drv_timeout=3000)
         ctx.stream("levels", "c29", "Driver/C29.lean", n=20000, args=["-mode", "levels", "-lvupto", str(1 << 22)])
+        ctx.stream("keeper", "c29", "Driver/C29.lean", n=3000, args=["-mode", "keeper"], timeout=3000, drv_timeout=3000)
     else:
-        ctx.stream("verify", "c29", "Driver/C29.lean", n=600, args=["-mode", "verify", "-max", "1100"])
+        # one stream: the types-level sets followed by the keeper-level validations (one harness run, one driver start)
+        ctx.stream("verify", "c29", "Driver/C29.lean", n=600, args=["-mode", "verify", "-max", "1100", "-keeper", "120"])
         ctx.stream("levels", "c29", "Driver/C29.lean", n=300, args=["-mode", "levels"])
 
 
 def search(ctx):
     for s in range(3):
         ctx.stream(f"search{s}", "c29", "Driver/C29.lean", n=3000, args=["-mode", "verify", "-max", "300"], seed=ctx.seed * 7919 + s, count=False)
+    ctx.stream("search-keeper", "c29", "Driver/C29.lean", n=600, args=["-mode", "keeper"], seed=ctx.seed * 7919 + 5, count=False)
